@@ -33,7 +33,8 @@ MIN_NONTRIVIAL = {'quick': 20000, 'thorough': 200000}
 REQUIRED_MONITORS = ['contract:trs_to_dict', 'construct', 'construct:ocr_scrub',
                      'construct:upper-default', 'construct:static+setter',
                      'wrap',
-                     'wrap-nonstandard', 'eq-hash', 'tract-trs']
+                     'wrap-nonstandard', 'eq-hash', 'tract-trs',
+                     'eq-hash:reused-object']
 
 ALPHABET = "0123456789nsewNSEWxXzZ_ -/:." + "\uff11\u0663\u00b2\u0967"   # + non-ASCII digits
 
@@ -77,6 +78,7 @@ def _encode(num, d, enc):
     raise ValueError(enc)
 
 
+_LIVED = {}
 ENCODINGS = ('int', 'str', 'lower', 'upper', 'pad', 'pad-lower')
 SEC_ENCODINGS = ('int', 'str', 'str2')
 
@@ -242,6 +244,26 @@ def _check_wrap(ctx, rep, pytrs, s, origin):
             ctx.violation('equal-strings-not-equal', case,
                           f"TRS({s!r}) and TRS({got!r}) carry the same "
                           f"string but compare/hash differently")
+        # One long-lived object, hashed, then re-set to this string: it
+        # compares and hashes like a fresh object of the same string.
+        ctx.hit('eq-hash:reused-object')
+        lived = _LIVED.setdefault('trs', pytrs.TRS('1n1w01'))
+        hash(lived)
+        if ctx.evaluations % 2:
+            lived.trs = s
+        elif std is not None and std['twp_num'] is not None \
+                and std['rge_num'] is not None and std['sec_num'] is not None \
+                and got == (f"{std['twp_num']}{std['twp_ns']}{std['rge_num']}"
+                            f"{std['rge_ew']}{std['sec_num']:02d}"):
+            lived.set_twprgesec(std['twp'], std['rge'], std['sec'])
+        else:
+            lived.trs = s
+        if lived.trs != got or not (lived == obj) or hash(lived) != hash(obj) \
+                or lived not in {obj}:
+            ctx.violation('equal-strings-not-equal', case,
+                          f"a TRS object re-set to {s!r} holds {lived.trs!r}; "
+                          f"== fresh object: {lived == obj}, hash equal: "
+                          f"{hash(lived) == hash(obj)}", dedup='reused')
         # The same string through a Tract.
         if isinstance(s, str) or s is None:
             ctx.hit('tract-trs')
